@@ -8,16 +8,45 @@ package scen
 //
 // Time model ("fast-forward"): every GetClosestPeers and every ADD_PROVIDER
 // parks in the scheduler. The simulator advances virtual time until the first
-// call parks (the seams poke a wake channel), then answers everything that is
-// parked, one call per quiescent point in canonical id order, until nothing is
-// parked any more ("fixpoint") - at that same virtual instant. Answers are pure
-// functions of (call, simulated world); the world (swarm, outage, failing
-// recipients, self addresses) only changes in explicit, tape-chosen steps.
-// Nothing inside the pump draws. Hence a provide/reprovide round happens at one
-// virtual instant, and the observable history is independent of the order in
-// which the provider's internal goroutines reach the seams (its own sources of
-// order nondeterminism are map iteration in sendProviderRecords and
-// SortPrefixesBySize, and sync.Cond wake-up order in the worker pool).
+// call parks (the seams poke a wake channel) or a parked call comes due, then
+// answers every call that is due, one call per quiescent point in canonical id
+// order. An ADD_PROVIDER the world delivers is delivered at the instant it was
+// sent, a lookup the world answers takes lookupLat (1 ms .. 1.7 s, drawn), a
+// call the world fails is failed after failLat. Answers are pure functions of
+// (call, simulated world); the world (swarm, outage, failing recipients, self
+// addresses) only changes in explicit, tape-chosen steps; nothing inside the
+// pump draws. Rounds are evaluated when nothing is parked ("quiet point") over
+// everything delivered since the previous quiet point, and the witness is
+// emitted once per scenario step, so that the recorded history does not
+// depend on the order in which the provider's internal goroutines reach the
+// seams (its own sources of order nondeterminism are map iteration in
+// sendProviderRecords and SortPrefixesBySize, and sync.Cond wake-up order in
+// the worker pool). Where that order would change more than millisecond
+// timing (small worker pools together with calls that fail after a delay;
+// partial answers while two calls carry the same label) the combination is
+// not generated - see genC17Cfg and pump.
+//
+// Rules (clause of the property -> rule id):
+//   payload-provider / payload-addrs   one provider = self, current addresses
+//   recipients-count                   a clean round reaches r peers (or all)
+//   recipients-nearest[-unexplored]    ... and they include the r nearest
+//   recipients-exact                   K == r: exactly the r nearest
+//   recipients-reported                every recipient was named by the router
+//                                      since the last quiet point
+//   first-advert                       accepted online+fault-free: complete
+//                                      round within 10 min
+//   cadence                            kept key, clean window: gap between
+//                                      complete rounds <= (I + maxDelay) * 1.05
+//   stop-readvertised                  nothing later than stop + I + maxDelay
+//   catch-up / catch-up-prompt         after a fault window: every kept key
+//                                      within one bound; missed rounds of a
+//                                      clean-cut outage within 10 min
+//   restart-resume                     accepted, unadvertised at Close: complete
+//                                      round within 10 min of the restarted
+//                                      node being online
+//   schedule-merge                     (label of cadence/catch-up violations
+//                                      whose key's region was consolidated)
+//   api-panic/-hang/-error, close-panic/-hang, new-failed, leak
 
 import (
 	"context"
@@ -56,7 +85,7 @@ func init() {
 		"pb.MessageSender (level A, simnet.Sender; per-recipient failures)", "datastore (simds, not parking)", "self-address function", "crypto/rand.Reader (replaced for the run by a tape-seeded reader; no option exists)"}
 	probes := []string{"probe_region_split", "probe_region_merge", "probe_vanilla_path", "probe_batch_path", "probe_outage_during_round",
 		"probe_catchup_ran", "probe_restart_with_queued_work", "probe_stop_before_first_advert", "probe_worker_starvation",
-		"probe_reprovide_round", "probe_first_advert", "probe_sut_offline", "probe_sut_disconnected", "probe_empty_prefix_queue_persisted"}
+		"probe_reprovide_round", "probe_round_judged", "probe_first_advert", "probe_sut_offline", "probe_sut_disconnected", "probe_empty_prefix_queue_persisted"}
 	sim.Register(&sim.Scenario{Prop: "C17", Name: "sweep", Weight: 3, Run: func(s *sim.Sim) { runC17Sweep(s, true) },
 		Real: real, Stub: stub,
 		Faults: append([]string{"fault_outage", "fault_outage_midround", "fault_peer_fail", "fault_router_error", "fault_send_error", "time_advance", "swarm_grow", "swarm_shrink", "addr_change", "restart"}, probes...)})
@@ -163,14 +192,15 @@ type c17Cfg struct {
 	skipBoot  bool
 	horizon   time.Duration
 	failLat   time.Duration
+	lookupLat time.Duration
 	faults    bool
 	maxBatch  int
 	stepLimit int
 }
 
 func (c *c17Cfg) String() string {
-	return fmt.Sprintf("class=%d peers=%d(bits=%d) keys=%d(bits=%d) r=%d K=%d I=%v maxDelay=%v offDelay=%v checkIvl=%v workers=%d/%d/%d conns=%d ample=%v skipBoot=%v horizon=%v failLat=%v faults=%v",
-		c.class, c.nPeers, c.peerBits, c.nKeys, c.keyBits, c.r, c.K, c.interval, c.maxDelay, c.offDelay, c.checkIvl, c.maxW, c.dedP, c.dedB, c.conns, c.ample, c.skipBoot, c.horizon, c.failLat, c.faults)
+	return fmt.Sprintf("class=%d peers=%d(bits=%d) keys=%d(bits=%d) r=%d K=%d I=%v maxDelay=%v offDelay=%v checkIvl=%v workers=%d/%d/%d conns=%d ample=%v skipBoot=%v horizon=%v failLat=%v lookupLat=%v faults=%v",
+		c.class, c.nPeers, c.peerBits, c.nKeys, c.keyBits, c.r, c.K, c.interval, c.maxDelay, c.offDelay, c.checkIvl, c.maxW, c.dedP, c.dedB, c.conns, c.ample, c.skipBoot, c.horizon, c.failLat, c.lookupLat, c.faults)
 }
 
 func genC17Cfg(s *sim.Sim, faults bool) *c17Cfg {
@@ -251,6 +281,16 @@ func genC17Cfg(s *sim.Sim, faults bool) *c17Cfg {
 	}
 	c.skipBoot = s.Chance("skip-bootstrap-reprovide", 1, 6)
 	c.failLat = []time.Duration{7 * time.Second, 2 * time.Second, 31 * time.Second}[s.Draw("fail-latency", 3)]
+	// A lookup always takes some virtual time. With instantaneous lookups a
+	// region reprovide would reschedule its regions at the very nanosecond its
+	// own timer fired, and the provider's schedule arithmetic (timeUntil == a
+	// full interval, taken modulo the interval) behaves differently in that
+	// unreachable state. Small pools get the minimal latency only, so that the
+	// order in which they serve queued regions changes timing by milliseconds.
+	c.lookupLat = time.Millisecond
+	if c.ample {
+		c.lookupLat = []time.Duration{time.Millisecond, 211 * time.Millisecond, 1700 * time.Millisecond}[s.Draw("lookup-latency", 3)]
+	}
 	tenths := s.Range("horizon", 3, maxIvls)
 	c.horizon = c.interval * time.Duration(tenths) / 10
 	return c
@@ -383,6 +423,10 @@ type c17H struct {
 	held                 bool
 	stop                 bool
 	lastSched            []string
+	stepRounds           map[string]int
+	lastEmit             string
+	lastCursor           string
+	lastFailAt           time.Duration
 	statsProbes          int
 	quiet                bool
 	freshStart           bool // no clean window since the provider was (re)started
@@ -560,15 +604,25 @@ func (h *c17H) newProvider() {
 // closeProvider closes provider and keystore, releasing whatever is parked the
 // way a real network would after the provider's context was cancelled.
 func (h *c17H) closeProvider() bool {
-	s := h.s
 	prov, ks := h.prov, h.ks
-	op := h.ops.Go(s, "Close", func() (any, error) {
+	return h.closeWith(func() error {
 		err := prov.Close()
 		if e2 := ks.Close(); err == nil {
 			err = e2
 		}
-		return nil, err
+		return err
 	})
+}
+
+// closeWith runs closer on a client goroutine and meanwhile releases every
+// parked lookup / ADD_PROVIDER (cancelled calls observe their cancellation).
+// The generic closeAndCensus loop is not enough here: it releases one parked
+// entry per round in id order, and a Close that is lock-blocked behind a
+// connectivity check parked in the router re-parks as "lock:..." every time,
+// which sorts before "router:..." and would be released for ever.
+func (h *c17H) closeWith(closer func() error) bool {
+	s := h.s
+	op := h.ops.Go(s, "Close", func() (any, error) { return nil, closer() })
 	for i := 0; i < 100000 && !op.Done; i++ {
 		s.Quiesce()
 		if op.Done {
@@ -576,7 +630,7 @@ func (h *c17H) closeProvider() bool {
 		}
 		var todo []*sim.Parked
 		for _, p := range s.Parked() {
-			if p.Kind == "router" || p.Kind == "rpc" {
+			if p.Kind == "router" || p.Kind == "rpc" || p.Kind == "bufop" {
 				todo = append(todo, p)
 			}
 		}
@@ -592,10 +646,10 @@ func (h *c17H) closeProvider() bool {
 			if c17Debug {
 				s.Tracef("  close: release %s cancelled=%v", p.ID, p.Cancelled())
 			}
-			if p.Cancelled() {
-				s.ReleaseCancelled(p)
+			if p.Kind == "bufop" {
+				s.Release(p, nil)
 			} else {
-				h.answer(p)
+				h.answer(p) // (observes a cancelled context first)
 			}
 			s.Quiesce()
 		}
@@ -620,6 +674,9 @@ func (h *c17H) closeProvider() bool {
 func (h *c17H) answer(p *sim.Parked) {
 	s := h.s
 	if p.Cancelled() {
+		if rc, ok := p.Data.(*c17RouterCall); ok {
+			rc.Done, rc.Err = true, context.Canceled
+		}
 		s.ReleaseCancelled(p)
 		return
 	}
@@ -630,6 +687,7 @@ func (h *c17H) answer(p *sim.Parked) {
 		if h.outage {
 			c.Err = errC17Outage
 			h.outageSeenFail = true
+			h.lastFailAt = s.Now()
 			s.Count("fault_router_error")
 			s.Release(p, error(errC17Outage))
 			return
@@ -661,6 +719,7 @@ func (h *c17H) answer(p *sim.Parked) {
 	case "rpc":
 		r := p.Data.(*simnet.RPC)
 		if h.outage || h.failing[r.To] || !h.member[r.To] {
+			h.lastFailAt = s.Now()
 			s.Count("fault_send_error")
 			s.Release(p, simnet.Reply{Err: errC17SendFail})
 			return
@@ -679,6 +738,10 @@ func (h *c17H) answer(p *sim.Parked) {
 // c17Soft (env VERIF_C17_SOFT, development aid) turns recipients-nearest
 // violations into counters to obtain a histogram over configurations.
 var c17Soft = os.Getenv("VERIF_C17_SOFT") != ""
+
+// c17ForceViol (env VERIF_C17_FORCEVIOL=<step>, development aid) records a
+// violation after the given step, to exercise the abort path of a run.
+var c17ForceViol = envInt("VERIF_C17_FORCEVIOL", 0)
 
 // c17Debug (env VERIF_C17_DEBUG, replay only) traces every answered call.
 var c17Debug = os.Getenv("VERIF_C17_DEBUG") != ""
@@ -720,8 +783,9 @@ func (h *c17H) wouldFail(p *sim.Parked) bool {
 // pump answers parked calls in canonical order, one per quiescent point, until
 // nothing answerable is parked (limit < 0) or limit calls were answered.
 //
-// A call the world answers benignly is answered at the instant it arrived. A
-// call the world fails is failed failLat after it was first seen (a failing
+// An ADD_PROVIDER the world delivers is delivered at the instant it was sent; a
+// lookup the world answers takes lookupLat. A call the world fails is failed
+// failLat after it was first seen (a failing
 // lookup or send ends by time-out, not at once): the provider retries failed
 // work without back-off while it still believes it is online, which with
 // zero-latency failures would never let virtual time advance.
@@ -738,11 +802,18 @@ func (h *c17H) pump(limit int) (n int, quiet bool, nextDue time.Duration) {
 		nextDue = -1
 		var ready []*sim.Parked
 		for _, p := range todo {
-			if !p.Cancelled() && h.wouldFail(p) {
-				d, ok := h.due[p.ID]
+			if !p.Cancelled() {
+				first, ok := h.due[p.ID]
 				if !ok {
-					d = now + h.failLat
-					h.due[p.ID] = d
+					first = now
+					h.due[p.ID] = first
+				}
+				d := first
+				switch {
+				case h.wouldFail(p):
+					d += h.failLat
+				case p.Kind == "router":
+					d += h.cfg.lookupLat
 				}
 				if d > now {
 					if nextDue < 0 || d < nextDue {
@@ -827,6 +898,17 @@ func (h *c17H) statsProbe() {
 
 // ---- oracle ----
 
+// c17Grace: a clean window starts no earlier than this long after the last
+// call the world failed. "Liveness only after faults stop": right after a
+// fault the provider may report ONLINE while it is still repeating the
+// prefix-length measurement the fault interrupted (it retries once a second),
+// and silently treats StartProviding/ProvideOnce as if it were offline.
+const c17Grace = time.Minute
+
+func (h *c17H) settled(now time.Duration) bool {
+	return h.lastFailAt < 0 || now-h.lastFailAt >= c17Grace
+}
+
 func (h *c17H) isClean() bool {
 	return h.prov != nil && !h.outage && len(h.failing) == 0 && h.sut.Load() == c17Online
 }
@@ -869,7 +951,7 @@ type c17Lookup struct {
 // whose target lies in k's scheduled region.
 // It only labels recipients-nearest violations (did the provider know the
 // peer it left out?); it decides nothing.
-func (h *c17H) exploredFor(k *c17Key) map[peer.ID]bool {
+func (h *c17H) exploredFor(k *c17Key) (known map[peer.ID]bool, nLookups, stale int) {
 	plen := -1
 	if h.prov != nil {
 		bits := kadBits(k.kad, 32)
@@ -886,11 +968,12 @@ func (h *c17H) exploredFor(k *c17Key) map[peer.ID]bool {
 		plen = 0
 	}
 	out := map[peer.ID]bool{}
+	all := map[peer.ID]bool{}
 	for _, l := range h.lookups {
 		// (the single-key lookup for k itself always names the nearest peers and
 		// the single-key path addresses exactly them, so a round that went wrong
 		// was a region round: only exploration lookups count)
-		if h.byMh[l.key] != nil || l.target.CPL(k.kad) < plen {
+		if h.byMh[l.key] != nil {
 			continue
 		}
 		// The peers of a reply that are farthest from the lookup target only
@@ -903,20 +986,35 @@ func (h *c17H) exploredFor(k *c17Key) map[peer.ID]bool {
 				minCPL = c
 			}
 		}
+		// "known": placed inside by a lookup aimed at the key's own scheduled
+		// region. The stale-lookup count runs over every exploration lookup since
+		// the last quiet point: an exploration that had to broaden its prefix
+		// leaves the region, and concurrent explorations cannot be told apart.
+		inRegion := l.target.CPL(k.kad) >= plen
+		fresh := false
 		for _, p := range l.reply {
 			if l.target.CPL(simnet.KadOfPeer(p)) > minCPL {
-				out[p] = true
+				if !all[p] {
+					fresh = true
+				}
+				all[p] = true
+				if inRegion {
+					out[p] = true
+				}
 			}
 		}
+		nLookups++
+		if !fresh {
+			stale++
+		}
 	}
-	return out
+	return out, nLookups, stale
 }
 
 // observe folds finished ADD_PROVIDER calls into the per-key accumulators and
 // checks the per-message rules (payload, reported recipient, stop).
 func (h *c17H) observe() {
 	s := h.s
-	now := s.Now()
 	log := h.snd.Snapshot()
 	for len(h.seen) < len(log) {
 		h.seen = append(h.seen, false)
@@ -964,8 +1062,8 @@ func (h *c17H) observe() {
 		if r.Err == nil && !r.Cancelled {
 			k.ok[r.To] = true
 		}
-		if r.SentAt != now {
-			k.spanning = true
+		if r.SentAt != r.DoneAt {
+			k.spanning = true // the send itself took time: it was failed or cut
 		}
 	}
 	for h.logIdx < len(log) && h.seen[h.logIdx] {
@@ -993,11 +1091,14 @@ func sameAddrBytes(got [][]byte, want []ma.Multiaddr) bool {
 // classifyRouterCalls feeds the path probes from the router inputs.
 func (h *c17H) classifyRouterCalls() {
 	h.routerMu.Lock()
-	calls := h.routerLog[h.routerIdx:]
-	h.routerIdx = len(h.routerLog)
+	var calls []*c17RouterCall
+	for h.routerIdx < len(h.routerLog) && h.routerLog[h.routerIdx].Done {
+		calls = append(calls, h.routerLog[h.routerIdx])
+		h.routerIdx++
+	}
 	h.routerMu.Unlock()
 	for _, c := range calls {
-		if !c.Done || c.Err != nil {
+		if c.Err != nil {
 			continue
 		}
 		if h.byMh[c.Key] != nil {
@@ -1041,16 +1142,27 @@ func (h *c17H) fixpoint(quiet bool) {
 		complete := len(k.ok) >= len(need)
 		wasPending := k.pendingFirst
 		if judged && !k.spanning {
+			s.Count("probe_round_judged")
 			// Were all of the nearest peers placed strictly inside some reply to
 			// an exploration lookup of this key's region? If not, the round went
 			// wrong because exploration stopped early (open finding
 			// recipients-nearest-unexplored), not because of the allocation.
-			label := ""
-			known := h.exploredFor(k)
+			label, note := "", ""
+			known, nLook, stale := h.exploredFor(k)
+			var unknown []peer.ID
 			for _, p := range need {
 				if !known[p] {
-					label = "-unexplored"
+					unknown = append(unknown, p)
 				}
+			}
+			if len(unknown) > 0 && nLook > 0 && stale >= 2 {
+				// the observable that identifies the open finding: exploration lookups
+				// that brought no new peer (two in a row end an exploration) and a
+				// nearest peer that no reply aimed at the key's region ever placed
+				// inside the explored zone. (Concurrent explorations interleave in the
+				// router log, so "in a row" cannot be demanded here.)
+				label = "-unexplored"
+				note = fmt.Sprintf("; of the %d exploration lookups of this instant %d named no new peer, and exploration ended without any reply aimed at the key's region having placed {%s} inside the explored zone", nLook, stale, sortedNames(h.u, unknown))
 			}
 			switch {
 			case !complete:
@@ -1064,7 +1176,7 @@ func (h *c17H) fixpoint(quiet bool) {
 					s.Count(fmt.Sprintf("soft_nearest_r%d_K%d", c.r, c.K))
 					break
 				}
-				s.Violate("recipients-nearest"+label, "round of %s at %v reached {%s}; the %d nearest swarm members are {%s} (r=%d, router K=%d, swarm of %d)", k.name, now, sortedNames(h.u, mapKeys(k.ok)), len(need), sortedNames(h.u, need), c.r, c.K, len(h.swarm))
+				s.Violate("recipients-nearest"+label, "round of %s at %v reached {%s}; the %d nearest swarm members are {%s} (r=%d, router K=%d, swarm of %d)%s", k.name, now, sortedNames(h.u, mapKeys(k.ok)), len(need), sortedNames(h.u, need), c.r, c.K, len(h.swarm), note)
 			case c.K == c.r && len(k.all) != len(need):
 				// rule recipients-exact: with K == r the recipients are exactly the r
 				// nearest. (An extra recipient that stems from a region round whose
@@ -1073,7 +1185,7 @@ func (h *c17H) fixpoint(quiet bool) {
 				if label != "" {
 					rule = "recipients-nearest-unexplored"
 				}
-				s.Violate(rule, "round of %s at %v addressed {%s}; with K == r the recipients must be exactly the %d nearest swarm members {%s} (r=%d, router K=%d, swarm of %d)", k.name, now, sortedNames(h.u, mapKeys(k.all)), len(need), sortedNames(h.u, need), c.r, c.K, len(h.swarm))
+				s.Violate(rule, "round of %s at %v addressed {%s}; with K == r the recipients must be exactly the %d nearest swarm members {%s} (r=%d, router K=%d, swarm of %d)%s", k.name, now, sortedNames(h.u, mapKeys(k.all)), len(need), sortedNames(h.u, need), c.r, c.K, len(h.swarm), note)
 			}
 		}
 		if complete {
@@ -1115,7 +1227,7 @@ func (h *c17H) fixpoint(quiet bool) {
 	// clean-window bookkeeping (a clean window only starts when nothing is in
 	// flight any more)
 	if h.isClean() {
-		if h.cleanSince < 0 && quiet {
+		if h.cleanSince < 0 && quiet && h.settled(now) {
 			h.cleanSince = now
 			if h.faultFree < 0 {
 				h.faultFree = now
@@ -1126,7 +1238,8 @@ func (h *c17H) fixpoint(quiet bool) {
 					// rule catch-up: after a fault window (or a restart) every kept key
 					// has a complete round within one interval (+ allowed delay + slack)
 					k.catchDue = now + h.boundC
-					if h.freshStart && c.skipBoot {
+					firstCycle := h.freshStart || now < h.bootOnlineAt+c.interval
+					if firstCycle && c.skipBoot {
 						// WithSkipBootstrapReprovide: the user accepts to wait for the
 						// schedule instead of a catch-up at start. The schedule starts
 						// with the next cycle, so a key may wait for up to two
@@ -1136,6 +1249,9 @@ func (h *c17H) fixpoint(quiet bool) {
 					if h.inWindow && h.cleanCut && k.validBefore && !k.msgsInFault {
 						// rule catch-up-prompt (clean-cut full outages only)
 						d := k.lastComplete + h.boundC
+						if firstCycle && c.skipBoot {
+							d += c.interval
+						}
 						if d < now+c17FirstBound {
 							d = now + c17FirstBound
 						}
@@ -1159,9 +1275,9 @@ func (h *c17H) fixpoint(quiet bool) {
 		h.beginFault("sut", false)
 	}
 	if quiet {
+		// (set by faults, restarts and partial answers; a lookup merely being in
+		// flight does not make a window unclean)
 		h.dirty = !h.isClean()
-	} else {
-		h.dirty = true
 	}
 
 	// schedule snapshot (injected read-only accessor): determinism witness,
@@ -1231,13 +1347,21 @@ func (h *c17H) fixpoint(quiet bool) {
 			s.Count("probe_sut_disconnected")
 		}
 	}
-	schedChanged := strings.Join(sched, ",") != strings.Join(h.lastSched, ",")
-	if len(line) > 0 || st != h.lastSut || schedChanged {
-		shown := strings.Join(sched, ",")
-		if len(sched) == 1 && sched[0] == "" {
-			shown = "<empty prefix>"
+	// The witness is emitted once per scenario step (emitStep): which of two
+	// rounds a few milliseconds apart is evaluated first depends, with a small
+	// worker pool, on the provider's internal queue order.
+	for _, l := range line {
+		h.stepRounds[l]++
+	}
+	if c17Debug && len(line) > 0 {
+		s.Tracef("  rounds %s", strings.Join(line, " "))
+	}
+	if c17Debug && h.prov != nil {
+		cur, at := provider.VerifScheduleCursor(h.prov)
+		if x := fmt.Sprintf("cursor=%q armed-at=%v", cur, time.Duration(at-s.Start.UnixNano())); x != h.lastCursor {
+			s.Tracef("  %s", x)
+			h.lastCursor = x
 		}
-		s.Tracef("fix sut=%d rounds=[%s] sched=[%s]", st, strings.Join(line, " "), shown)
 	}
 	h.lastSut = st
 	if h.prov != nil {
@@ -1253,6 +1377,27 @@ func (h *c17H) fixpoint(quiet bool) {
 		}
 	}
 	s.State("sut=%d kept=%d pend=%d sched=%d outage=%v fail=%d", st, nk, np, len(sched), h.outage, len(h.failing))
+}
+
+// emitStep adds what happened during one scenario step to the trace: the
+// rounds of keys the provider is obliged to advertise (sorted, with
+// multiplicity), the provider's connectivity state and the schedule.
+func (h *c17H) emitStep() {
+	var rs []string
+	for l, n := range h.stepRounds {
+		rs = append(rs, fmt.Sprintf("%sx%d", l, n))
+	}
+	sort.Strings(rs)
+	shown := strings.Join(h.lastSched, ",")
+	if len(h.lastSched) == 1 && h.lastSched[0] == "" {
+		shown = "<empty prefix>"
+	}
+	line := fmt.Sprintf("sut=%d rounds=[%s] sched=[%s]", h.lastSut, strings.Join(rs, " "), shown)
+	if len(rs) > 0 || line != h.lastEmit {
+		h.s.Tracef("  => %s", line)
+	}
+	h.lastEmit = line
+	h.stepRounds = map[string]int{}
 }
 
 func (h *c17H) splitMergeProbe(old, cur []string) {
@@ -1296,9 +1441,10 @@ func mapKeys(m map[peer.ID]bool) []peer.ID {
 	return out
 }
 
-// settle answers everything that is answerable now and evaluates the rounds.
-// It returns the next instant at which a parked failing call comes due (-1).
-func (h *c17H) settle() time.Duration {
+// settleNow answers everything that is answerable at this instant and
+// evaluates the rounds. It returns the next instant at which a parked call
+// comes due (-1 if none).
+func (h *c17H) settleNow() time.Duration {
 	_, quiet, next := h.pump(-1)
 	if h.stop {
 		return -1
@@ -1308,6 +1454,29 @@ func (h *c17H) settle() time.Duration {
 	return next
 }
 
+// settle lets time pass until no call is in flight any more (rounds take a
+// few lookup latencies), but no longer than a bound: during an outage the
+// connectivity probes keep coming.
+func (h *c17H) settle() {
+	s := h.s
+	limit := s.Now() + 3*time.Minute
+	for i := 0; i < 2000; i++ {
+		next := h.settleNow()
+		if h.quiet || next < 0 || s.Failed() || h.stop || next > limit {
+			return
+		}
+		if d := next - s.Now(); d > 0 {
+			t := time.NewTimer(d)
+			select {
+			case <-h.wake:
+			case <-t.C:
+			}
+			t.Stop()
+		}
+		s.Quiesce()
+	}
+}
+
 // advance lets d of virtual time pass. Time stops at every instant at which a
 // call reaches a seam (the call is answered at that instant) and at every
 // instant at which a failing call comes due.
@@ -1315,7 +1484,7 @@ func (h *c17H) advance(d time.Duration) {
 	s := h.s
 	deadline := s.Now() + d
 	for {
-		next := h.settle()
+		next := h.settleNow()
 		if s.Failed() || h.stop {
 			return
 		}
@@ -1325,6 +1494,11 @@ func (h *c17H) advance(d time.Duration) {
 		}
 		if next >= 0 && next-s.Now() < rem {
 			rem = next - s.Now()
+		}
+		if h.cleanSince < 0 && h.isClean() && !h.settled(s.Now()) {
+			if g := h.lastFailAt + c17Grace - s.Now(); g > 0 && g < rem {
+				rem = g
+			}
 		}
 		if rem > 0 {
 			t := time.NewTimer(rem)
@@ -1405,6 +1579,10 @@ func (h *c17H) accept(ks []*c17Key, kind string, force bool) {
 			wasKept := k.kept
 			k.kept = true
 			k.stoppedAt = -1
+			if !wasKept {
+				// rounds of an earlier life (or of a ProvideOnce) do not count
+				k.lastComplete, k.validBefore, k.merged = -1, false, false
+			}
 			if wasKept && !force {
 				continue // already provided in the past: no new obligation
 			}
@@ -1443,7 +1621,7 @@ func newC17H(s *sim.Sim, c *c17Cfg) (*c17H, func()) {
 
 	h := &c17H{s: s, cfg: c, u: simnet.NewUniverse(seed, 0), rng: newSubRng(s, "world"),
 		wake: make(chan struct{}, 1), member: map[peer.ID]bool{}, usedPeer: map[int]bool{}, failing: map[peer.ID]bool{},
-		byMh: map[string]*c17Key{}, reported: map[peer.ID]int{}, due: map[string]time.Duration{}, failLat: c.failLat, cleanSince: -1, faultFree: -1, prevClean: -1, lastOnlineAt: -1, chain: 1}
+		byMh: map[string]*c17Key{}, reported: map[peer.ID]int{}, due: map[string]time.Duration{}, stepRounds: map[string]int{}, failLat: c.failLat, cleanSince: -1, faultFree: -1, prevClean: -1, lastOnlineAt: -1, lastFailAt: -1, chain: 1}
 	h.boundC = (c.interval+c.maxDelay)*105/100 + time.Second
 	h.snd = &simnet.Sender{S: s, U: h.u}
 	h.ds = simds.New(s, "ds")
@@ -1488,12 +1666,17 @@ func c17SweepBody(s *sim.Sim, c *c17Cfg, h *c17H) {
 		}
 	}
 	h.settle()
+	h.emitStep()
 
 	for s.Step() {
 		if s.Failed() || h.stop || s.Now() >= c.horizon {
 			break
 		}
 		h.step()
+		h.emitStep()
+		if c17ForceViol > 0 && s.Steps == c17ForceViol {
+			s.Violate("debug-forced", "forced violation (VERIF_C17_FORCEVIOL)")
+		}
 	}
 
 	// drain phase: stop injecting faults, let the schedule run for one more
@@ -1508,6 +1691,8 @@ func c17SweepBody(s *sim.Sim, c *c17Cfg, h *c17H) {
 		}
 		h.advance(3 * time.Minute)
 		h.advance(h.boundC + c17FirstBound + time.Minute)
+		h.settle()
+		h.emitStep()
 	}
 	if s.Steps > s.MaxSteps {
 		s.Count("step_budget_exhausted")
@@ -1527,14 +1712,20 @@ func c17SweepBody(s *sim.Sim, c *c17Cfg, h *c17H) {
 	s.Tracef("done kept=%d", nKept)
 	s.NonTrivial = nRe > 0 || (nEver > 0 && (s.Stats["fault_outage"] > 0 || s.Stats["restart"] > 0 || s.Stats["swarm_grow"]+s.Stats["swarm_shrink"] > 0))
 
-	closeAndCensus(s, func() {
-		if h.prov != nil {
-			_ = h.prov.Close()
+	if h.prov != nil {
+		h.closeProvider()
+	}
+	closeAndCensus(s, func() {}) // goroutine census (and whatever is still parked)
+	if c17Debug {
+		for _, v := range s.Violations() {
+			if v.Rule == "close-hang" {
+				sut, harness := sim.BubbleGoroutines(harnessPrefixes...)
+				f, _ := os.Create("/tmp/c17-hang-dump.txt")
+				defer f.Close()
+				fmt.Fprintf(f, "CLOSE-HANG goroutines (sut %d, harness %d):\n%s\n---- harness ----\n%s\n", len(sut), len(harness), strings.Join(sut, "\n\n"), strings.Join(harness, "\n\n"))
+			}
 		}
-		if h.ks != nil {
-			_ = h.ks.Close()
-		}
-	})
+	}
 	s.Finish()
 }
 
@@ -1617,6 +1808,8 @@ func (h *c17H) step() {
 				}
 				k.kept = false
 				k.stoppedAt = now
+				k.lastComplete = -1 // a later StartProviding starts a new history
+				k.validBefore, k.merged = false, false
 				// an unacknowledged first advertisement may or may not still happen
 				k.pendingFirst, k.resumePending = false, false
 				k.catchDue, k.promptDue = -1, -1
@@ -1762,7 +1955,18 @@ func (h *c17H) step() {
 		}
 		n := s.Range("mid-n", 1, 24)
 		h.beginFault("midround", false)
-		answered, _, _ := h.pump(n)
+		// answer n calls as they come due (lookups take lookupLat)
+		answered := 0
+		for i := 0; i < 200 && answered < n; i++ {
+			a, quiet, next := h.pump(n - answered)
+			answered += a
+			if quiet || next < 0 || h.stop || h.dupLabels(h.parkedCalls()) {
+				break
+			}
+			if d := next - s.Now(); d > 0 {
+				s.Sleep(d)
+			}
+		}
 		h.observe()
 		outstanding := len(h.parkedCalls())
 		s.Tracef("step midround outage after %d answers", answered)
